@@ -2,9 +2,9 @@ CONSTANTS
   Reqs = {r1, r2, r3}
   MaxReq = 2
   MaxRetry = 1
-  Updates <- UpdNone
-  MaxUpd = 0
-  Defects = {"UnconditionalRetryRelease"}
+  Updates <- UpdAny
+  MaxUpd = 2
+  Defects = {"UncountedWhileUnlimited"}
 SPECIFICATION Spec
 INVARIANTS Conserved NonNeg IdleZero TripsExact
 CHECK_DEADLOCK FALSE
